@@ -83,6 +83,15 @@ def handleGood : Handler := fun a =>
   if a.get "cls" == "C" then fmtBool (GoodC ⟨bit s 0, bit s 1, bit s 2⟩)
   else fmtBool (GoodP ⟨bit s 0, bit s 1, bit s 2, bit s 3, bit s 4, bit s 5⟩)
 
+/-- `c03orient cls=P s=<before> s2=<after>` → is the change what `orient_uncertain_edge(u,v)` may do? -/
+def handleOrient : Handler := fun a =>
+  let s := a.get "s"; let s2 := a.get "s2"
+  if a.get "cls" == "C" then
+    fmtBool (decide (OrientOnlyC ⟨bit s 0, bit s 1, bit s 2⟩ ⟨bit s2 0, bit s2 1, bit s2 2⟩))
+  else
+    fmtBool (decide (OrientOnlyP ⟨bit s 0, bit s 1, bit s 2, bit s 3, bit s 4, bit s 5⟩
+      ⟨bit s2 0, bit s2 1, bit s2 2, bit s2 3, bit s2 4, bit s2 5⟩))
+
 def handlers : List (String × Handler) :=
-  [("c03run", handleRun), ("c03ctor", handleCtor), ("c03good", handleGood)]
+  [("c03run", handleRun), ("c03ctor", handleCtor), ("c03good", handleGood), ("c03orient", handleOrient)]
 end C03
